@@ -235,12 +235,28 @@ def check(prog, res, tier):
         mti = it.sym_str('MTI', lo=4, hi=4, charset='digits')
         msg.items['MTI'] = mti
         hb = SymV('hex_bitmap', 'bool')
-        cfg = common.generic_bit_config(it)
+        # an element of the message may have no entry in the configuration (cfg[n] raises KeyError): whatever the encoder
+        # does then, a message it returns must still have bit n set iff element n was emitted
+        cfg = common.generic_bit_config(it, strict_may_miss=True)
         it.user.update(msg=msg, mti=mti, cfg=cfg)
         return it.call_function(dfi, [msg, cfg, codec(it), hb], {})
     runs_d = Runs(prog, entry_d, summaries={FIELD: field_summary, 'iso8583._pds_to_de': pds_summary}, hooks=common.HOOKS, res=res)
 
     seen_c = {'pos': 0, 'range': 0, 'bit1': 0}
+    paired = set()
+
+    def paired_known():
+        """loops that, on some inductive path, set a bitmap position and emit an element in the same iteration"""
+        if not paired_known.done:
+            paired_known.done = True
+            for q in runs_d.inv:
+                for f0, l0, _s0, _s1, hd in iterations(q, func=dfi.short):
+                    ss = [e for e in q.events if f0 < e.seq < l0 and e.kind == 'setitem' and isinstance(e.data['obj'], ListV) and e.under(dfi.short)]
+                    cc = [x for x in q.interp.user.get('elements', []) if f0 < x[3] < l0]
+                    if ss and cc and len(ss) == len(cc):
+                        paired.add(id(hd.node))
+        return paired
+    paired_known.done = False
 
     def chk_c(p, mode):
         fails = []
@@ -273,8 +289,10 @@ def check(prog, res, tier):
                         ns.append(key.segs[1].val)
                 if ns and all(st.decide_eq0(x - ns[0]) is True for x in ns):
                     bit = IntV(ns[0])
+            if sets and calls and len(sets) == len(calls):
+                paired.add(id(head.node))
             if len(sets) != len(calls):
-                if not sets or not calls:
+                if (not sets or not calls) and id(head.node) not in paired_known():
                     # the bitmap and the data are built in different loops (or the bitmap is not a list of flags at all)
                     fails.append(soft(f'in one iteration {len(sets)} bitmap positions are set and {len(calls)} elements are emitted: '
                                       f'the bitmap is not built next to the data', head.node))
@@ -333,6 +351,44 @@ def check(prog, res, tier):
         seen_c['pos'], 'a bitmap position set next to an emitted element inside the element loop'))
 
     res.add(presence_ob(prog, res, dfi))
+    # ---- C02.f derived merchant entries: the values of the DE43_* keys are the groups of the configured pattern, as matched;
+    # only trailing blanks of the postcode may be removed
+    from .decode import DecodeUnits as _DU
+    du43 = _DU(prog, res)
+    if 'de43' in du43.units:
+        u43 = du43.units['de43']
+
+        def group_of(v):
+            """(group name, chain of string methods applied to it) for a value derived from a regex group"""
+            chain = []
+            for _ in range(4):
+                if not (isinstance(v, SeqV) and len(v.segs) == 1 and isinstance(v.segs[0], Opq) and isinstance(v.segs[0].desc, tuple)):
+                    return None, chain
+                d = v.segs[0].desc
+                if d[0] == 'group' or (isinstance(d[0], str) and d[0].startswith('group')):
+                    return d[1] if len(d) > 1 else d[0], chain
+                if d[0] in ('strip', 'lstrip', 'rstrip', 'upper', 'lower', 'title', 'casefold') and len(d) > 1:
+                    chain.append(d[0])
+                    v = d[1]
+                    continue
+                return None, chain
+            return None, chain
+
+        def chk_43(p, mode):
+            if p.outcome != 'return' or not isinstance(p.value, DictV):
+                return []
+            fails = []
+            for k, v in p.value.items.items():
+                v = p.interp.resolve(v)
+                _g, chain = group_of(v)
+                bad = [m for m in chain if not (m == 'rstrip' and k == 'DE43_POSTCODE')]
+                if bad:
+                    fails.append(definite(f'the derived entry {k} is the matched group passed through {"().".join(chain)}(): characters of '
+                                          f'the merchant field that belong to the value (leading blanks, case) are lost', firm=True))
+            return fails
+        res.add(u43.runs.judge('C02.f', 'the DE43_* entries are the groups of the configured pattern as matched (only trailing blanks of the '
+                                        'postcode are removed)', func_where(u43.fi), "field_dict['DE43_POSTCODE'].rstrip()", chk_43,
+                               rule='C02.f.de43', unknown_ok=benign_unknown))
     for ob in common.state_obs(res, 'C02.c', func_where(dfi), [('_field_to_iso8583', runs), ('_dict_to_iso8583', runs_d)], 'message encoding'):
         res.add(ob)
     if prog.has_func('iso8583._icc_to_dict'):
